@@ -12,6 +12,10 @@
  *  D2  "A <p> NL" for every parameter text p of length <= L over 20 bytes, once per typed reader (18 readers
  *      incl. SCPI_ParamCopyText with buffers of 0..3 bytes and the array readers with 0..3 slots).
  *  D3  the D1 strings handed NUL-terminated to SCPI_Parse.
+ *  D4  every history of <= 4 messages over {undefined headers of length 1..6, SYST:ERR?, *CLS, two undefined units} on one
+ *      context (static-heap build: info heap of every size 5..12).
+ *  D5  "A " + every string of length <= 5 over 11 token-forming bytes (blocks, strings, expressions, lists) in exactly
+ *      fitting buffers, whole and one byte per call.
  * Oracle: sanitizer reports, watchdog, "SCPI_Input returned and buffer.position < buffer.length".
  */
 #include "ctx.h"
@@ -248,6 +252,70 @@ int main(int argc, char ** argv) {
             if (i < 0) break;
         }
     }
+    /* ---- D5: parameter-heavy streams: "A " + every string of length <= L5 over 11 token-forming bytes, in a buffer
+     *      that the stream fills exactly and in one with 3 bytes to spare; whole + flush and one byte per call ---- */
+    {
+        static const unsigned char S5[] = {'#', '1', '3', '"', '(', ')', 'A', ',', ' ', '\n', 'H'};
+        int L5 = mc_thorough ? 6 : 5;
+        typed_mode = 0;
+        for (len = 1; len <= L5; len++) {
+            for (i = 0; i < len; i++) { idx[i] = 0; s[i] = S5[0]; }
+            for (;;) {
+                if (MC_CASE()) {
+                    unsigned char msg[16];
+                    int spare, k;
+                    msg[0] = 'A'; msg[1] = ' '; memcpy(msg + 2, s, (size_t) len);
+                    mc_case_tag = "D5-parameter-stream"; mc_case_s[0] = msg; mc_case_n[0] = (size_t) len + 2;
+                    h0 = n_handler; t0 = n_tokens;
+                    for (spare = 1; spare <= 4; spare += 3) {
+                        size_t b = (size_t) len + 2 + (size_t) spare;
+                        char * ib = (char *) malloc(b);
+                        fresh(ib, b); feed(msg, len + 2); feed(msg, 0);
+                        fresh(ib, b); for (k = 0; k < len + 2; k++) feed(msg + k, 1); feed(msg, 0);
+                        SCPI_ErrorClear(&ctx);
+                        ASAN_UNPOISON_MEMORY_REGION(ib, b);
+                        free(ib);
+                        { char * b0 = ibufs[8]; fresh(b0, 8); }
+                    }
+                    if (n_handler != h0 || n_tokens != t0) n_nontrivial++;
+                }
+                for (i = len - 1; i >= 0; i--) { if (++idx[i] < 11) { s[i] = S5[idx[i]]; break; } idx[i] = 0; s[i] = S5[0]; }
+                if (i < 0) break;
+            }
+        }
+    }
+#if USE_DEVICE_DEPENDENT_ERROR_INFORMATION
+    /* ---- D4: histories of messages on ONE context: undefined headers of length 1..6 (their text is stored as
+     *      device-dependent information), error queries and *CLS in every order up to 4 steps; small info heap ---- */
+    {
+        static const char * steps[] = {"Z\n", "ZZ\n", "ZZZ\n", "ZZZZ\n", "ZZZZZ\n", "ZZZZZZ\n", "SYST:ERR?\n", "*CLS\n", "Z:Z;ZZ:ZZ\n"};
+        int K = 4, k, st[6], hs;
+        for (hs = 5; hs <= 12; hs++) for (k = 1; k <= K; k++) {
+            for (i = 0; i < k; i++) st[i] = 0;
+            for (;;) {
+                if (MC_CASE()) {
+                    char * ib = ibufs[11];
+                    mc_case_tag = "D4-history"; mc_case_i[0] = hs; mc_case_i[1] = st[0]; mc_case_i[2] = k > 1 ? st[1] : -1; mc_case_i[3] = k > 2 ? st[2] : -1; mc_case_i[4] = k > 3 ? st[3] : -1;
+                    fresh(ib, 11);
+#if !USE_MEMORY_ALLOCATION_FREE
+                    { char * hp = (char *) malloc((size_t) hs); SCPI_InitHeap(&ctx, hp, (size_t) hs);
+#endif
+                    for (i = 0; i < k; i++) feed((const unsigned char *) steps[st[i]], (int) strlen(steps[st[i]]));
+                    SCPI_ErrorClear(&ctx);
+#if !USE_MEMORY_ALLOCATION_FREE
+                    SCPI_InitHeap(&ctx, iheap, 9); free(hp); }
+#endif
+                    n_nontrivial++;
+                }
+                for (i = k - 1; i >= 0; i--) { if (++st[i] < 9) break; st[i] = 0; }
+                if (i < 0) break;
+            }
+#if USE_MEMORY_ALLOCATION_FREE
+            if (hs > 5) break;      /* the heap size only matters in the static-heap build */
+#endif
+        }
+    }
+#endif
     if (mc_shard == 0) {
         mc_sample("D1: stream [A #1] into input buffers of 2..6 bytes, whole / split at 1,2,3 / byte-wise, + flush, behind 7 residues");
         mc_sample("D2: message [A (1!9\\n] through each of 18 typed readers");
